@@ -488,7 +488,7 @@ class CoaxialPipe(gt.pipes.Coaxial, GHEDesignerBoreholeWithMultiplePipes):
         vol_pipe = pi * ((r_in_out**2) - (r_in_in**2) + (r_out_out**2) - (r_out_in**2))
         # V_grout = pi * ((coaxial.b.r_b**2) - (r_out_out**2))
         area_surf_outer = pi * 2 * r_out_in
-        resist_conv = 1 / (self.h_f_a_in * area_surf_outer)
+        resist_conv = 1 / (self.h_f_a_out * area_surf_outer)
         resist_pipe = log(r_out_out / r_out_in) / (TWO_PI * self.pipe.k[1])
         return vol_fluid, vol_pipe, resist_conv, resist_pipe
 
